@@ -247,6 +247,27 @@ func c17Run(a c17Case) *eng.Fail {
 		case a.Frames == -2:
 			src.info = nil
 			src.frames = [][]byte{pix}
+		case a.Frames == -3 || a.Frames == -4:
+			// complete frames first, the buffer under test last: an encoder that validates only its first frame is caught
+			need := a.W * a.H * a.C * ((a.BA + 7) / 8)
+			if need <= 0 || need > 1<<16 {
+				return nil
+			}
+			full := make([]byte, need)
+			for i := range full {
+				full[i] = byte(i*7 + 3)
+				if a.BS > 0 && a.BS < 8 {
+					full[i] &= byte(1<<uint(a.BS) - 1)
+				} else if a.BA == 16 && i%2 == 1 && a.BS > 8 && a.BS < 16 {
+					full[i] &= byte(1<<uint(a.BS-8) - 1)
+				} else if a.BA == 16 && i%2 == 1 && a.BS <= 8 {
+					full[i] = 0
+				}
+			}
+			for i := 0; i < -a.Frames-2; i++ {
+				src.frames = append(src.frames, full)
+			}
+			src.frames = append(src.frames, pix)
 		default:
 			for i := 0; i < a.Frames; i++ {
 				src.frames = append(src.frames, pix)
@@ -276,7 +297,7 @@ func c17Run(a c17Case) *eng.Fail {
 			if a.Frames == 0 {
 				return nil // nothing to encode, nothing returned: satisfiable
 			}
-			if a.Frames < 0 {
+			if a.Frames == -1 || a.Frames == -2 {
 				return eng.Failf(name+":accepted:empty-frame", "Encode succeeded with Frames=%d", a.Frames)
 			}
 			// decode back and compare the declared geometry through the codec itself: the decoded frame must have
@@ -423,7 +444,7 @@ func c17Cases(tier string) []c17Case {
 				for _, c := range []int{0, 1, 2, 3, 4} {
 					for _, f := range [][2]int{{8, 8}, {8, 0}, {0, 0}, {16, 12}, {16, 16}, {8, 16}, {16, 1}, {32, 32}, {1, 1}, {64, 64}} {
 						for mode := 0; mode < 4; mode++ {
-							for _, fr := range []int{1, 2, 0, -1, -2} {
+							for _, fr := range []int{1, 2, 0, -1, -2, -3, -4} {
 								if (mode != 0 && fr != 1) || (fr != 1 && (w != 2 || h != 2)) {
 									continue
 								}
